@@ -319,6 +319,46 @@ def main():
                     return p
                 for start in range(0, n + 1):
                     scenario("Arguments (AllArguments)", f_args, n, start, False, results, True, spec_args)
+        # ---- FromValue conversions: every declared parameter type against every value kind
+        kinds = {"Int": ("i64", lambda: 7), "UInt": ("u64", lambda: 7), "Float": ("f64", lambda: ("abs_f64",)), "String": ("Arc<std::string::String>", lambda: ("abs", "s")),
+                 "Bytes": ("Arc<Vec<u8>>", lambda: ("abs", "b")), "Bool": ("bool", lambda: True), "List": ("Arc<Vec<Value>>", lambda: ("abs", "l")),
+                 "Duration": ("TimeDelta", lambda: ("abs", "d")), "Timestamp": ("DateTime<FixedOffset>", lambda: ("abs", "t"))}
+        other = {"Null": [], "Map": [("abs", "m")], "Function": [("abs", "n"), ("None",)]}
+        all_kinds = list(kinds) + list(other)
+        conv = [(n, f) for n, f in fns.items() if n.split("#")[0].endswith("::from_value") and "macros.rs" in n]
+        for n, f in conv:
+            ret = f.ret
+            opt = "std::option::Option<" in ret
+            target = [k for k, (ty, _) in kinds.items() if ("<%s," % ty) in ret.replace("std::option::Option<%s>" % ty, ty) or ("Result<%s," % ty) in ret or ("Option<%s>," % ty) in ret]
+            if len(target) != 1:
+                raise Unsupported("cannot tell the target kind of %s -> %s" % (n, ret))
+            target = target[0]
+            for k in all_kinds:
+                stats["scenarios"] += 1
+                payload = [kinds[k][1]()] if k in kinds else other[k]
+                v = ("enum", "Value::" + k, payload)
+                eng = new_engine()
+                eng.steps = 0
+                hold = {0: v}
+                try:
+                    res = eng.call_fn(f, [Ref(hold, 0, ())])
+                except PanicFound as p:
+                    failures.append({"extractor": "FromValue", "target": ret, "value_kind": k, "problems": ["panic: %s" % p.msg], "args": 0, "arg_idx": 0, "results": []})
+                    continue
+                stats["paths"] += 1
+                if k == target:
+                    want_ok = ("Some", payload[0]) if opt else payload[0]
+                    good = res[1] == "Result::Ok" and res[2][0] == want_ok
+                elif opt and k == "Null":
+                    good = res[1] == "Result::Ok" and res[2][0] == ("None",)
+                else:
+                    good = res[1] == "Result::Err" and res[2][0][1] == "ExecutionError::UnexpectedType"
+                if good:
+                    stats["proved"] += 1
+                else:
+                    failures.append({"extractor": "FromValue", "target": ret, "value_kind": k, "args": 0, "arg_idx": 0, "results": [],
+                                     "problems": ["converting a %s value to %s gives %r" % (k, ret, res)]})
+                stats["functions"] |= eng.stats["functions"]
     except Unsupported as u:
         status = 2
         print("INCONCLUSIVE: unsupported: %s" % u)
